@@ -31,6 +31,7 @@ RULES = "\n".join("rule %s { condition: %s }" % (n, c) for (n, v, val, c) in PRO
 
 
 def fmt(t, val):
+    if val is None: return "NULL"
     return yv.hx(val) if t == "s" else str(val)
 
 
@@ -42,6 +43,7 @@ def ops_for(state):
             ops.append(("defr", v, t, val))
     for u in UNKNOWN[:3]:
         ops.append(("defr",) + u)
+    ops.append(("defr", "s", "s", None))
     for w in WRONG[:2]:
         ops.append(("defr",) + w)
     ops.append(("scanr",))
@@ -70,7 +72,7 @@ def step(state, op):
     k = op[0]
     if k == "defr":
         _, v, t, val = op
-        if v not in VARS: return s, ("rc", INVALID_ARG)
+        if v not in VARS or val is None: return s, ("rc", INVALID_ARG)
         if VARS[v][0] != t: return s, ("rc", BAD_TYPE)
         s["R"][v] = val
         return s, ("rc", 0)
@@ -192,6 +194,7 @@ def compile_phase(ck):
     for v, (t, vals) in VARS.items():
         for val in vals[:2]:
             alpha.append((v, t, val))
+    alpha += [("s", "s", None), ("sx", "s", None)]          # NULL value: documented as ERROR_INVALID_ARGUMENT, must change nothing
     n = 0
     for L in (1, 2, 3):
         for seq in itertools.product(alpha, repeat=L):
@@ -199,13 +202,19 @@ def compile_phase(ck):
             for (v, t, val) in seq:
                 cmds.append("defc 0 %s %s %s" % (v, t, fmt(t, val)))
                 if v in env: exps.append(DUP)
+                elif val is None: exps.append(INVALID_ARG)
                 else: env[v] = val; exps.append(0)
             # remaining variables must be defined for the probe rules to compile
             for v, (t, vals) in VARS.items():
                 if v not in env:
                     cmds.append("defc 0 %s %s %s" % (v, t, fmt(t, vals[0]))); env[v] = vals[0]; exps.append(0)
-            cmds += ["add 0 - " + yv.hx(RULES), "getrules 0 0", "scan target=r0 via=mem ml=0 flags=8 data=616263"]
-            rep = w.batch(cmds)
+            cmds += ["add 0 - " + yv.hx(RULES), "getrules 0 0", "scanner 0 0", "scan target=s0 via=mem ml=0 flags=8 data=616263", "scan target=r0 via=mem ml=0 flags=8 data=616263"]
+            try:
+                rep = w.batch(cmds)
+            except (yv.WorkerDied, yv.WorkerHang) as e:
+                yv.drop_worker("plain"); w = yv.get_worker("plain")
+                ck.violation("C20:crash:after-compile-time-defines:on=%s" % (e.cmd.split() or ["?"])[0], dict(seq=[list(x) for x in seq], commands=cmds, error=str(e), stderr=getattr(e, "err", "")[-1500:]))
+                continue
             rcs = [r["rc"] for r in rep[2:2 + len(exps)]]
             n += 1
             ck.cov["evaluations"] += 1
@@ -213,6 +222,8 @@ def compile_phase(ck):
                 ck.violation("C20:rc:defc", dict(seq=seq, expected=exps, observed=rcs, commands=cmds))
                 continue
             got = observed_env(rep[-1])
+            if observed_env(rep[-2]) != got:
+                ck.violation("C20:value:defc:scanner-differs-from-rules-level", dict(seq=seq, scanner=observed_env(rep[-2]), rules_level=got, commands=cmds)); continue
             if got != {v: [val] for v, val in env.items()}:
                 ck.violation("C20:value:defc", dict(seq=seq, expected=env, observed=got, commands=cmds))
     ck.sub("compile-time-defines", sequences=n, exhaustive=True)
